@@ -183,6 +183,70 @@ class Ctx:
             return None
         return exe
 
+    def validate_translator(self, n=4000):
+        """T-gen validation: run the real C functions (unity build) and the generated Lean
+        definitions on the same random + boundary arguments; restricted in nat mode to the
+        no-overflow domain.  A difference breaks the tie (failed obligation)."""
+        import random
+        rnd = random.Random(self.seed)
+        cu = self.cunit("cunit")
+        drv = self.build_driver("tsv-gen")
+        if not cu or not os.path.exists(drv):
+            return False
+        B = [0, 1, 2, 3, 15, 16, 17, 254, 255, 256, 65535, 65536, 2**31 - 1]
+        BIG = B + [2**31, 2**32 - 2, 2**32 - 1]
+
+        def v(big=False):
+            r = rnd.random()
+            if r < 0.55:
+                return rnd.choice(BIG if big else B)
+            if r < 0.85:
+                return rnd.randrange(0, 40)
+            return rnd.randrange(0, 2**31)
+        lines = ["const"]
+        skipped = 0
+        fns2p = ["point_add", "point_sub", "point_lte", "point_lt", "point_gt", "point_gte", "point_eq"]
+        fns2l = ["length_add", "length_sub", "length_min", "length_saturating_sub"]
+        for _ in range(n):
+            f = rnd.choice(fns2p)
+            lines.append("%s %d %d %d %d" % (f, v(), v(), v(), v()))
+            f = rnd.choice(fns2l)
+            lines.append("%s %d %d %d %d %d %d" % (f, v(), v(), v(), v(), v(), v()))
+        for _ in range(n // 4):
+            lines.append("length_is_undefined %d %d %d" % (v(), v(), v()))
+            a = [v() for _ in range(6)]
+            if a[0] >= a[3] and a[2] >= a[5]:
+                lines.append("length_backtrack " + " ".join(map(str, a)))
+            else:
+                skipped += 1
+            lines.append("ts_subtree_can_inline " + " ".join(str(v()) for _ in range(7)))
+            # ts_point_edit: point(2) byte edit(3+6)
+            a = [v() for _ in range(12)]
+            a[4] = max(a[4], a[3])  # old_end >= start
+            lines.append("ts_point_edit " + " ".join(map(str, a)))
+            a = [v() for _ in range(4)] + [v(True), v(True)] + [v(True), v(True), v(True)] + [v() for _ in range(6)]
+            if a[4] > a[5]:
+                a[4], a[5] = a[5], a[4]
+            a[7] = max(a[7], a[6])
+            lines.append("ts_range_edit " + " ".join(map(str, a)))
+        for a in range(5):
+            for b in range(5):
+                for f in ("quantifier_mul", "quantifier_join", "quantifier_add"):
+                    lines.append("%s %d %d" % (f, a, b))
+        inp = "\n".join(lines) + "\n"
+        rc1, out1 = sh([cu], input_text=inp, timeout=600)
+        rc2, out2 = sh([drv], input_text=inp, timeout=600)
+        o1, o2 = out1.strip().split("\n"), out2.strip().split("\n")
+        diffs = [(lines[i], o1[i], o2[i]) for i in range(min(len(o1), len(o2))) if o1[i] != o2[i]]
+        ok = rc1 == 0 and rc2 == 0 and len(o1) == len(lines) and len(o2) == len(lines) and not diffs
+        self.oblige("tie:translator-validation(C functions = generated Lean defs)", ok,
+                    "first differences: %s" % diffs[:3] if diffs else "rc=%d/%d lines=%d/%d/%d" % (rc1, rc2, len(lines), len(o1), len(o2)))
+        self.coverage["translator_validation"] = {"calls": len(lines), "differences": len(diffs), "skipped_out_of_domain": skipped}
+        for d in diffs[:3]:
+            self.violation("tie", "generated Lean definition and C function disagree on `%s`: C=%s Lean=%s" % d,
+                           {"call": d[0], "c": d[1], "lean": d[2]}, found_input=False)
+        return ok
+
     # ---------------------------------------------------------------- violations
     def violation(self, kind, what, payload, fingerprint=None, found_input=True):
         """kind: judge | corr | proof | tie.  fingerprint: dict matched against KNOWN_FINDINGS."""
